@@ -182,6 +182,7 @@ func c06(r *ev.Run) {
 	r.Require("least_connection_sample_pairs_judged", 1000)
 	r.Require("settled_bursts_judged", 20)
 	r.Require("connections_closed_on_host_removal", 3)
+	r.Require("held_half_closed_streaming_connections", 1)
 }
 
 func c06EndToEnd(r *ev.Run) {
@@ -235,6 +236,18 @@ func c06History(r *ev.Run, s *sutc.SUT, rnd *rand.Rand, policy service.LoadBalan
 			be.arrivals <- c06Arrival{backend: be.idx, id: string(id[:]), at: lclock.Tick()}
 			fmt.Fprintf(c, "B%d\n", be.idx)
 			c.SetReadDeadline(time.Now().Add(60 * time.Second))
+			if id[0] == 'S' {
+				// streaming mode: keep sending after the client finished its direction, until the connection breaks
+				go io.Copy(io.Discard, c)
+				for i := 0; i < 3000; i++ {
+					c.SetWriteDeadline(time.Now().Add(2 * time.Second))
+					if _, err := c.Write([]byte("tick\n")); err != nil {
+						return
+					}
+					time.Sleep(10 * time.Millisecond)
+				}
+				return
+			}
 			io.Copy(io.Discard, c) // until the client (or the proxy) closes
 		})
 		if err != nil {
@@ -312,6 +325,7 @@ func c06History(r *ev.Run, s *sutc.SUT, rnd *rand.Rand, policy service.LoadBalan
 		}
 	}
 	// connect opens one connection through the proxy; returns the backend index (-1: closed without a backend) and the conn.
+	streaming := false
 	connect := func(keep bool) (int, net.Conn) {
 		connSeq++
 		c, err := net.DialTimeout("tcp", svc.Addr, 3*time.Second)
@@ -319,6 +333,9 @@ func c06History(r *ev.Run, s *sutc.SUT, rnd *rand.Rand, policy service.LoadBalan
 			return -2, nil
 		}
 		id := fmt.Sprintf("%08d", connSeq)
+		if streaming {
+			id = "S" + id[1:]
+		}
 		c.Write([]byte("CON" + id))
 		c.SetReadDeadline(time.Now().Add(4 * time.Second))
 		line, err := bufio.NewReader(c).ReadString('\n')
@@ -358,8 +375,15 @@ func c06History(r *ev.Run, s *sutc.SUT, rnd *rand.Rand, policy service.LoadBalan
 				var held []net.Conn
 				if settle() && usable()[i] {
 					for tries := 0; tries < 12 && len(held) < 2; tries++ {
-						if idx, c := connect(true); c != nil {
+						streaming = len(held) == 1 // the second held connection: client half-closed, backend keeps streaming
+						idx, c := connect(true)
+						streaming = false
+						if c != nil {
 							if idx == i {
+								if len(held) == 1 {
+									c.(*net.TCPConn).CloseWrite()
+									r.Count("held_half_closed_streaming_connections", 1)
+								}
 								held = append(held, c)
 							} else {
 								c.Close()
@@ -371,9 +395,13 @@ func c06History(r *ev.Run, s *sutc.SUT, rnd *rand.Rand, policy service.LoadBalan
 				delete(member, i)
 				trace = append(trace, fmt.Sprintf("remove b%d (holding %d connections)", i, len(held)))
 				for _, c := range held {
-					c.SetReadDeadline(time.Now().Add(4 * time.Second))
-					var one [1]byte
-					_, err := c.Read(one[:])
+					deadline := time.Now().Add(4 * time.Second)
+					c.SetReadDeadline(deadline)
+					buf := make([]byte, 4096)
+					var err error
+					for err == nil { // a streaming backend keeps the data flowing until the proxy closes the connection
+						_, err = c.Read(buf)
+					}
 					if ne, ok := err.(net.Error); ok && ne.Timeout() {
 						r.Violation("C06:connection-survives-host-removal", "an established connection to a host was still open 4 s after the host was removed", map[string]interface{}{"policy": policy.String(), "trace": trace})
 					} else {
